@@ -43,7 +43,9 @@ type c07In struct {
 	Default  Bs         `json:"default,omitempty"`
 	Intended []c07Range `json:"intended,omitempty"` // ranges the header was built from (structured stream only)
 	ExtAfterQ bool      `json:"ext_after_q,omitempty"`
-	QTailParam bool     `json:"q_tail_param,omitempty"` // some parameter name ends in the letter q (freq=3): its "q=" is taken for the weight
+	QTailParam bool     `json:"q_tail_param,omitempty"`
+	Code      int       `json:"code,omitempty"`  // handler cases: the operation's declared success status (0 = 200)
+	Steps     [][]Bs    `json:"steps,omitempty"` // hseq: the Accept header lines of the successive requests on ONE handler instance // some parameter name ends in the letter q (freq=3): its "q=" is taken for the weight
 }
 
 type c07Spec struct {
@@ -66,6 +68,14 @@ type c07Obs struct {
 	Status   int       `json:"status,omitempty"`
 	Ran      bool      `json:"ran,omitempty"`
 	Route    []Bs      `json:"route_offers,omitempty"` // MatchedRoute.Produces: the offers in the order the route really uses
+	CT       Bs        `json:"content_type,omitempty"`
+	Seq      []c07Step `json:"seq,omitempty"`
+}
+
+type c07Step struct {
+	Status int  `json:"status"`
+	Ran    bool `json:"ran"`
+	CT     Bs   `json:"content_type"`
 }
 
 type c07 struct{}
@@ -184,7 +194,7 @@ func c07HeaderQ(r *rand.Rand, tail bool) (lines []Bs, intended []c07Range, extAf
 			sb.WriteString(v)
 			rg := c07Range{Value: Bs(v)}
 			if r.Intn(5) == 0 { // parameter before q
-				sb.WriteString(c07ws(r) + ";" + c07ws(r) + "level=1")
+				sb.WriteString(c07ws(r) + ";" + c07ws(r) + []string{"level=1", "level=1", "level", "a=b/c", "v=\"x\""}[r.Intn(5)])
 			}
 			if tail && r.Intn(3) == 0 {
 				sb.WriteString(";" + []string{"freq=3", "seq=0.5", "iq=1"}[r.Intn(3)])
@@ -300,7 +310,22 @@ func (c07) Gen(r *rand.Rand, tier string, i int) any {
 				offers = append(offers, Bs(o))
 			}
 		}
-		return c07In{Kind: "handler", Lines: ls, Offers: offers}
+		code := []int{0, 0, 201, 204, 204}[r.Intn(5)]
+		if r.Intn(3) == 0 {
+			var steps [][]Bs
+			for j := 2 + r.Intn(4); j > 0; j-- {
+				sl, _, _ := c07Header(r)
+				if r.Intn(3) == 0 && len(steps) > 0 { // same first line as the previous request, another second line
+					sl = append([]Bs{steps[len(steps)-1][0]}, Bs(c07Media(r, true)+[]string{"", ";q=0.9", ";q=0"}[r.Intn(3)]))
+				}
+				if len(sl) == 0 {
+					sl = []Bs{Bs("*/*")}
+				}
+				steps = append(steps, sl)
+			}
+			return c07In{Kind: "hseq", Offers: offers, Code: code, Steps: steps}
+		}
+		return c07In{Kind: "handler", Lines: ls, Offers: offers, Code: code}
 	default:
 		encs := []string{"gzip", "deflate", "br", "identity", "*"}
 		var parts []string
@@ -358,14 +383,30 @@ func (c07) Run(inAny any) any {
 			obs.R = Bs(middleware.NegotiateContentEncoding(req, bsList(in.Offers)))
 		case "handler":
 			c07RunHandler(in, &obs)
+		case "hseq":
+			h, route := c07Handler(in, &obs)
+			obs.Route = route
+			for _, lines := range in.Steps {
+				obs.Ran = false
+				req := httptest.NewRequest("GET", "/x", nil)
+				req.Header = c07Hdr("Accept", lines)
+				rec := httptest.NewRecorder()
+				h.ServeHTTP(rec, req)
+				obs.Seq = append(obs.Seq, c07Step{rec.Code, obs.Ran, Bs(rec.Header().Get("Content-Type"))})
+			}
 		}
 	})
 	return obs
 }
 
-func c07RunHandler(in c07In, obs *c07Obs) {
+// c07Handler builds the API handler of a one-operation description producing in.Offers with the declared success status.
+func c07Handler(in c07In, obs *c07Obs) (http.Handler, []Bs) {
 	prod, _ := json.Marshal(bsList(in.Offers))
-	doc := fmt.Sprintf(`{"swagger":"2.0","info":{"title":"t","version":"1"},"paths":{"/x":{"get":{"produces":%s,"responses":{"200":{"description":"ok"}}}}}}`, prod)
+	code := in.Code
+	if code == 0 {
+		code = 200
+	}
+	doc := fmt.Sprintf(`{"swagger":"2.0","info":{"title":"t","version":"1"},"paths":{"/x":{"get":{"produces":%s,"responses":{"%d":{"description":"ok"}}}}}}`, prod, code)
 	spec, err := loads.Analyzed(json.RawMessage(doc), "")
 	if err != nil {
 		panic(err)
@@ -380,14 +421,22 @@ func c07RunHandler(in c07In, obs *c07Obs) {
 	}))
 	ctx := middleware.NewContext(spec, api, nil)
 	h := ctx.APIHandler(nil)
+	var route []Bs
+	if mr, _, ok := ctx.RouteInfo(httptest.NewRequest("GET", "/x", nil)); ok {
+		route = toBs(mr.Produces)
+	}
+	return h, route
+}
+
+func c07RunHandler(in c07In, obs *c07Obs) {
+	h, route := c07Handler(in, obs)
+	obs.Route = route
 	req := httptest.NewRequest("GET", "/x", nil)
 	req.Header = c07Hdr("Accept", in.Lines)
-	if mr, _, ok := ctx.RouteInfo(req); ok {
-		obs.Route = toBs(mr.Produces)
-	}
 	rec := httptest.NewRecorder()
 	h.ServeHTTP(rec, req)
 	obs.Status = rec.Code
+	obs.CT = Bs(rec.Header().Get("Content-Type"))
 }
 
 func (c07) Coq(inAny any, obsAny any) string {
@@ -413,6 +462,12 @@ func (c07) Coq(inAny any, obsAny any) string {
 		return fmt.Sprintf("CNeg %s %s %s %s %s", lines, coqBytesList(bsList(in.Offers)), coqBytes(string(in.Default)), coqBool(obs.Panicked), coqBytes(string(obs.R)))
 	case "handler":
 		return fmt.Sprintf("CHandler %s %s %s %d %s", lines, coqBytesList(bsList(obs.Route)), coqBool(obs.Panicked), obs.Status, coqBool(obs.Ran))
+	case "hseq":
+		steps := make([]string, len(obs.Seq))
+		for i, st := range obs.Seq {
+			steps[i] = fmt.Sprintf("(%s, %d, %s, %s)", coqBytesList(bsList(in.Steps[i])), st.Status, coqBool(st.Ran), coqBytes(string(st.CT)))
+		}
+		return fmt.Sprintf("CHandlerSeq %s %s [%s]", coqBytesList(bsList(obs.Route)), coqBool(obs.Panicked), strings.Join(steps, "; "))
 	case "enc":
 		return fmt.Sprintf("CEnc %s %s %s %s", lines, coqBytesList(bsList(in.Offers)), coqBool(obs.Panicked), coqBytes(string(obs.R)))
 	}
@@ -462,6 +517,8 @@ func (c07) Category(inAny any, obsAny any) (string, bool) {
 		default:
 			return "neg/match", matches >= 2
 		}
+	case "hseq":
+		return fmt.Sprintf("hseq/%d-requests", len(in.Steps)), true
 	case "handler":
 		if obs.Status == 406 {
 			return "handler/406", true
